@@ -19,6 +19,11 @@ Definition SP (a : bytes) : bytes := pkey ST_STORAGE a.                  (* stor
 Definition CK (a : bytes) : bytes := pkey ST_CONTRACT a.                 (* contract record *)
 Definition DK (a : bytes) : bytes := pkey ST_DESTROYED a.                (* destroyed marker *)
 
+Global Arguments SK : simpl never.
+Global Arguments SP : simpl never.
+Global Arguments CK : simpl never.
+Global Arguments DK : simpl never.
+
 Lemma is_addr_spec a : is_addr a = true <-> wf_bytes a = true /\ length a = ADDR_LEN.
 Proof. unfold is_addr. rewrite andb_true_iff, Nat.eqb_eq. tauto. Qed.
 
@@ -174,7 +179,7 @@ Qed.
 (** entries under [SP old] map injectively to new keys *)
 Lemma newk_of_SK old new sfx v : length old = ADDR_LEN -> newk new (SK old sfx, v) = SK new sfx.
 Proof.
-  intro HL. unfold newk, SK, pkey, migrate_key. simpl. f_equal. f_equal.
+  intro HL. unfold newk, SK, migrate_key. cbn [fst tl pkey]. f_equal. f_equal.
   change C44_MIGRATE_KEY_SKIP with ADDR_LEN. rewrite <- HL.
   rewrite skipn_app, skipn_all, Nat.sub_diag. reflexivity.
 Qed.
@@ -189,9 +194,9 @@ Qed.
 Lemma innew_false_diff old new L x : length old = ADDR_LEN -> length new = ADDR_LEN -> under old L ->
   has_prefix (SP new) x = false -> innew new x L = false.
 Proof.
-  intros Ho Hn HU Hx. unfold innew. destruct (existsb _ L) eqn:E; [|reflexivity]. exfalso.
+  intros Ho Hn HU Hx. destruct (innew new x L) eqn:E; [|reflexivity]. exfalso.
   apply existsb_exists in E. destruct E as [[k v] [HI HE]]. apply key_eqb_eq in HE. subst x.
-  pose proof (HU _ HI) as P. simpl in P. apply SP_prefix_inv in P. rewrite P in Hx.
+  pose proof (HU _ HI) as P. cbn [fst] in P. apply SP_prefix_inv in P. rewrite P in Hx.
   rewrite (newk_of_SK old new _ v Ho) in Hx. rewrite SP_prefix_SK in Hx. discriminate.
 Qed.
 
@@ -202,17 +207,17 @@ Proof.
   intros L sfx v b Ho Hn Hne. revert b.
   induction L as [|e L IH]; intros b Hs HU HI; [destruct HI|].
   assert (NK : forall L', under old L' -> inkeys (SK new sfx) L' = false).
-  { intros L' HU'. unfold inkeys. destruct (existsb _ L') eqn:E; [|reflexivity]. exfalso.
+  { intros L' HU'. destruct (inkeys (SK new sfx) L') eqn:E; [|reflexivity]. exfalso.
     apply existsb_exists in E. destruct E as [[k w] [HI' HE]]. simpl in HE. apply key_eqb_eq in HE. subst k.
-    pose proof (HU' _ HI') as P. simpl in P. rewrite (SP_disjoint old new sfx) in P; congruence. }
+    pose proof (HU' _ HI') as P. cbn [fst] in P. rewrite (SP_disjoint old new sfx) in P; congruence. }
   simpl. pose proof (NK (e :: L) HU) as NK1. simpl in NK1. apply orb_false_iff in NK1. destruct NK1 as [A1 B1]. rewrite A1.
   destruct HI as [HI|HI].
   - subst e. rewrite (newk_of_SK old new sfx v Ho), key_eqb_refl.
     apply mig_effect_frame; [exact B1|].
     (* no later entry maps to the same new key: keys of a sorted list are distinct *)
-    unfold innew. destruct (existsb _ L) eqn:E; [|reflexivity]. exfalso.
+    destruct (innew new (SK new sfx) L) eqn:E; [|reflexivity]. exfalso.
     apply existsb_exists in E. destruct E as [[k w] [HI' HE]]. apply key_eqb_eq in HE.
-    pose proof (HU _ (or_intror HI')) as P. simpl in P. apply SP_prefix_inv in P.
+    pose proof (HU _ (or_intror HI')) as P. cbn [fst] in P. apply SP_prefix_inv in P.
     rewrite P in HE. rewrite (newk_of_SK old new _ w Ho) in HE.
     apply SK_inj in HE; [|reflexivity]. destruct HE as [_ HE].
     simpl in Hs. destruct Hs as [Hgt _]. specialize (Hgt _ HI'). simpl in Hgt.
